@@ -79,6 +79,11 @@ func (h *harness) stageHandlers() {
 	}
 	n := 0
 	for _, mt := range fxMsgTypes(h.reg) {
+		if !strings.HasPrefix(mt.URL, "/fx.") {
+			// ethermint's handlers are dependency code; MsgEthereumTx in particular is only ever executed behind the
+			// ethereum ante route (which derives From from the signature) and cannot be part of a proposal
+			continue
+		}
 		base := h.explicitBase(mt.URL)
 		if base == nil {
 			continue
@@ -110,6 +115,57 @@ func (h *harness) stageHandlers() {
 				}
 				h.runHandler(mt.URL, bz, "valid instance ("+who+", "+chain+")")
 				n++
+				// fields that are absent from the encoding (proto3 omits empty strings): add them with each class, at the
+				// root and inside every nested message
+				for _, parent := range append([][]wstep{nil}, messagePaths(bz, 2)...) {
+					present := map[int]bool{}
+					sub := bz
+					okp := true
+					for _, st := range parent {
+						fs, ok := parseWire(sub)
+						if !ok {
+							okp = false
+							break
+						}
+						occ, found := 0, false
+						for _, f := range fs {
+							if int(f.Num) == st.Num {
+								if occ == st.Occ {
+									sub, found = f.Val, true
+									break
+								}
+								occ++
+							}
+						}
+						if !found {
+							okp = false
+							break
+						}
+					}
+					if !okp {
+						continue
+					}
+					fs, _ := parseWire(sub)
+					maxNum := 0
+					for _, f := range fs {
+						present[int(f.Num)] = true
+						if int(f.Num) > maxNum {
+							maxNum = int(f.Num)
+						}
+					}
+					for num := 1; num <= maxNum+3 && num <= 16; num++ {
+						if present[num] {
+							continue
+						}
+						for _, txt := range hostileTexts[1:] {
+							path := append(append([]wstep{}, parent...), wstep{num, 0})
+							if mbz, ok := applyWire(bz, wireOp{Path: path, Op: "add", Set: []byte(txt)}); ok {
+								h.runHandler(mt.URL, mbz, fmt.Sprintf("absent field %v added as %q (%s, %s)", path, txt, who, chain))
+								n++
+							}
+						}
+					}
+				}
 				for _, path := range wirePaths(bz, 3) {
 					for _, txt := range hostileTexts {
 						if mbz, ok := applyWire(bz, wireOp{Path: path, Op: "set", Set: []byte(txt)}); ok {
@@ -128,4 +184,27 @@ func (h *harness) stageHandlers() {
 		}
 	}
 	h.rep.Count(fmt.Sprintf("handler:instances=%d", n))
+}
+
+// messagePaths: the paths of wirePaths whose payload itself parses as a message (candidates for adding absent fields)
+func messagePaths(bz []byte, depth int) [][]wstep {
+	var out [][]wstep
+	fs, ok := parseWire(bz)
+	if !ok {
+		return nil
+	}
+	occ := map[int]int{}
+	for _, f := range fs {
+		st := wstep{int(f.Num), occ[int(f.Num)]}
+		occ[int(f.Num)]++
+		if f.Val != nil && len(f.Val) > 0 && looksLikeMessage(f.Val) {
+			out = append(out, []wstep{st})
+			if depth > 0 {
+				for _, p := range messagePaths(f.Val, depth-1) {
+					out = append(out, append([]wstep{st}, p...))
+				}
+			}
+		}
+	}
+	return out
 }
